@@ -9,7 +9,7 @@ P = {
  "C03": ("exploration", "structural invariant monitor (CheckTable) over every table emitted by every producer", "4/C03"),
  "C04": ("exploration", "reference-model monitor over the diff event stream (set-difference model keyed by primary key)", "4/C04"),
  "C05": ("exploration", "cell-level reference merge model compared with Merger/RowCollector output and CLI merge", "4/C05"),
- "C06": ("exploration", "round-trip and content-address monitors over generated object values incl. 16-bit boundary lengths", "4/C06"),
+ "C06": ("exploration", "round-trip and content-address monitors over generated object values incl. 16-bit boundary lengths, worker under a daylight-saving TZ", "4/C06"),
  "C07": ("exploration", "source/destination store snapshot comparison + ordering monitor over the recorded packfile object sequence", "4/C07"),
  "C08": ("exploration", "graph-model oracle over ClosedSetsFinder outputs with a counted-store-reads work bound", "4/C08"),
  "C09": ("exploration", "before/after repository snapshots around real fetch/push/pull against an in-process reference server", "4/C09"),
